@@ -198,7 +198,9 @@ pub fn value_to_tokens(value: &ASN1Value) -> Result<String, GeneratorError> {
                 })
             })
             .map(|mut s| {
-                s.pop();
+                if s.ends_with(',') {
+                    s.pop();
+                }
                 s + "]"
             }),
         ASN1Value::LinkedNestedValue {
